@@ -143,9 +143,19 @@ func init() {
 			an.Pinned[f[0]] = f[1]
 		}
 	}
+	ruleNamed := map[string]bool{}
+	for _, m := range regexp.MustCompile("[\"`]((?:\\(\\*?[A-Za-z_]\\w*\\)|[A-Za-z_]\\w*)(?:\\.[A-Za-z_]\\w*)*)[\"`]").FindAllStringSubmatch(ruleText, -1) {
+		name := m[1]
+		if i := strings.LastIndex(name, "."); i >= 0 {
+			name = name[i+1:]
+		}
+		ruleNamed[strings.Trim(name, "()*")] = true
+	}
 	an.InlineExclude = func(f *types.Func) bool {
 		// (1) a function some rule refers to by name is never inlined: the call is what the rule inspects
-		if regexp.MustCompile(`\b` + regexp.QuoteMeta(f.Name()) + `\b`).MatchString(ruleText) {
+		// ("by name" = a string literal of a rule source that is nothing but an identifier path, such as
+		// "Lifecycler.stopping", "(*KV).get" or "updateConsul"; words of explanations and obligation keys do not count)
+		if ruleNamed[f.Name()] {
 			return true
 		}
 		// (2) only helpers that did not exist on the pinned tree are inlined (the "extract helper"
